@@ -45,6 +45,12 @@ def unixRound (ns : Int) : Int := (ns + 500000000) / nsPerSec
 /-- the value of option 51: `uint32(LeaseTime.Round(time.Second) / time.Second)` -/
 def leaseOpt (lease : Int) : Nat := (unixRound lease % 4294967296).toNat
 
+/-- the lease time `setupRange` keeps (since the `fix:` for D19): the configured duration rounded to whole
+seconds, `p.LeaseTime = p.LeaseTime.Round(time.Second)` — what the wire can carry. `RState.lease` is this
+value: the drivers hand `keptLease` of the configured duration to `RState.setup`. (Durations are not
+negative here; Go rounds a negative half away from zero, this rounds it up.) -/
+def keptLease (configured : Int) : Int := unixRound configured * nsPerSec
+
 def lookupRec (recs : List (Mac × Rec)) (m : Mac) : Option Rec :=
   (recs.find? (fun p => p.1 == m)).map (·.2)
 
